@@ -58,14 +58,14 @@ impl ParsedDateTime {
 }
 
 pub struct ParsedDuration {
-    pub years: u32,
-    pub months: u32,
-    pub weeks: u32,
-    pub days: u32,
-    pub hours: u32,
-    pub minutes: u32,
-    pub seconds: u32,
-    pub microseconds: u32,
+    pub years: u64,
+    pub months: u64,
+    pub weeks: u64,
+    pub days: u64,
+    pub hours: u64,
+    pub minutes: u64,
+    pub seconds: u64,
+    pub microseconds: u64,
 }
 
 impl ParsedDuration {
@@ -598,6 +598,7 @@ impl<'a> Parser<'a> {
         let mut duration: ParsedDuration = ParsedDuration::new();
         let mut got_t: bool = false;
         let mut last_had_fraction = false;
+        let mut empty_time = false;
 
         loop {
             match self.current {
@@ -609,8 +610,10 @@ impl<'a> Parser<'a> {
                     }
 
                     got_t = true;
+                    empty_time = true;
                 }
                 _c => {
+                    empty_time = false;
                     let (value, op_fraction) = self.parse_duration_number_frac()?;
                     if last_had_fraction {
                         return Err(self.parse_error("Invalid duration fraction".to_string()));
@@ -632,21 +635,10 @@ impl<'a> Parser<'a> {
                                     );
                                 }
 
-                                duration.hours += value;
+                                duration.hours = Self::checked_sum(duration.hours, value)?;
 
                                 if let Some(fraction) = op_fraction {
-                                    let extra_minutes = fraction * 60_f64;
-                                    let extra_full_minutes: f64 = extra_minutes.trunc();
-                                    duration.minutes += extra_full_minutes as u32;
-                                    let extra_seconds =
-                                        ((extra_minutes - extra_full_minutes) * 60.0).round();
-                                    let extra_full_seconds = extra_seconds.trunc();
-                                    duration.seconds += extra_full_seconds as u32;
-                                    let micro_extra = ((extra_seconds - extra_full_seconds)
-                                        * 1_000_000.0)
-                                        .round()
-                                        as u32;
-                                    duration.microseconds += micro_extra;
+                                    Self::add_fraction(&mut duration, fraction, 3_600.0)?;
                                 }
                             }
                             'M' => {
@@ -656,25 +648,17 @@ impl<'a> Parser<'a> {
                                     );
                                 }
 
-                                duration.minutes += value;
+                                duration.minutes = Self::checked_sum(duration.minutes, value)?;
 
                                 if let Some(fraction) = op_fraction {
-                                    let extra_seconds = fraction * 60_f64;
-                                    let extra_full_seconds = extra_seconds.trunc();
-                                    duration.seconds += extra_full_seconds as u32;
-                                    let micro_extra = ((extra_seconds - extra_full_seconds)
-                                        * 1_000_000.0)
-                                        .round()
-                                        as u32;
-                                    duration.microseconds += micro_extra;
+                                    Self::add_fraction(&mut duration, fraction, 60.0)?;
                                 }
                             }
                             'S' => {
-                                duration.seconds = value;
+                                duration.seconds = Self::checked_sum(duration.seconds, value)?;
 
                                 if let Some(fraction) = op_fraction {
-                                    duration.microseconds +=
-                                        (fraction * 1_000_000.0).round() as u32;
+                                    Self::add_fraction(&mut duration, fraction, 1.0)?;
                                 }
                             }
                             _ => {
@@ -727,25 +711,7 @@ impl<'a> Parser<'a> {
                                 duration.weeks = value;
 
                                 if let Some(fraction) = op_fraction {
-                                    let extra_days = fraction * 7_f64;
-                                    let extra_full_days = extra_days.trunc();
-                                    duration.days += extra_full_days as u32;
-                                    let extra_hours = (extra_days - extra_full_days) * 24.0;
-                                    let extra_full_hours = extra_hours.trunc();
-                                    duration.hours += extra_full_hours as u32;
-                                    let extra_minutes =
-                                        ((extra_hours - extra_full_hours) * 60.0).round();
-                                    let extra_full_minutes: f64 = extra_minutes.trunc();
-                                    duration.minutes += extra_full_minutes as u32;
-                                    let extra_seconds =
-                                        ((extra_minutes - extra_full_minutes) * 60.0).round();
-                                    let extra_full_seconds = extra_seconds.trunc();
-                                    duration.seconds += extra_full_seconds as u32;
-                                    let micro_extra = ((extra_seconds - extra_full_seconds)
-                                        * 1_000_000.0)
-                                        .round()
-                                        as u32;
-                                    duration.microseconds += micro_extra;
+                                    Self::add_fraction(&mut duration, fraction, 604_800.0)?;
                                 }
                             }
                             'D' => {
@@ -755,24 +721,10 @@ impl<'a> Parser<'a> {
                                     ));
                                 }
 
-                                duration.days += value;
+                                duration.days = Self::checked_sum(duration.days, value)?;
+
                                 if let Some(fraction) = op_fraction {
-                                    let extra_hours = fraction * 24.0;
-                                    let extra_full_hours = extra_hours.trunc();
-                                    duration.hours += extra_full_hours as u32;
-                                    let extra_minutes =
-                                        ((extra_hours - extra_full_hours) * 60.0).round();
-                                    let extra_full_minutes: f64 = extra_minutes.trunc();
-                                    duration.minutes += extra_full_minutes as u32;
-                                    let extra_seconds =
-                                        ((extra_minutes - extra_full_minutes) * 60.0).round();
-                                    let extra_full_seconds = extra_seconds.trunc();
-                                    duration.seconds += extra_full_seconds as u32;
-                                    let micro_extra = ((extra_seconds - extra_full_seconds)
-                                        * 1_000_000.0)
-                                        .round()
-                                        as u32;
-                                    duration.microseconds += micro_extra;
+                                    Self::add_fraction(&mut duration, fraction, 86_400.0)?;
                                 }
                             }
                             _ => {
@@ -791,37 +743,79 @@ impl<'a> Parser<'a> {
             }
         }
 
+        if empty_time {
+            return Err(self.parse_error(
+                "Time designator without time components in duration".to_string(),
+            ));
+        }
+
         parsed.duration = Some(duration);
 
         Ok(())
     }
 
-    fn parse_duration_number_frac(&mut self) -> Result<(u32, Option<f64>), ParseError> {
-        let value = self.parse_duration_number()?;
-        let fraction = matches!(self.current, '.' | ',').then(|| {
-            let mut decimal = 0_f64;
-            let mut denominator = 1_f64;
+    /// Adds `fraction` (in [0, 1)) of a unit lasting `unit_seconds`,
+    /// rounded to the microsecond.
+    fn add_fraction(
+        duration: &mut ParsedDuration,
+        fraction: f64,
+        unit_seconds: f64,
+    ) -> Result<(), ParseError> {
+        let micros = (fraction * unit_seconds * 1_000_000.0).round() as u64;
+        let seconds = micros / 1_000_000;
 
-            while let Some(digit) = self.inc().and_then(|ch| ch.to_digit(10)) {
-                decimal *= 10.0;
-                decimal += f64::from(digit);
-                denominator *= 10.0;
-            }
+        duration.days = Self::checked_sum(duration.days, seconds / 86_400)?;
+        duration.hours = Self::checked_sum(duration.hours, seconds % 86_400 / 3_600)?;
+        duration.minutes = Self::checked_sum(duration.minutes, seconds % 3_600 / 60)?;
+        duration.seconds = Self::checked_sum(duration.seconds, seconds % 60)?;
+        duration.microseconds += micros % 1_000_000;
 
-            decimal / denominator
-        });
-
-        Ok((value, fraction))
+        Ok(())
     }
 
-    fn parse_duration_number(&mut self) -> Result<u32, ParseError> {
-        let Some(mut value) = self.current.to_digit(10) else {
-            return Err(self.parse_error("Invalid number in duration".to_string()));
-        };
+    fn checked_sum(a: u64, b: u64) -> Result<u64, ParseError> {
+        a.checked_add(b).ok_or_else(|| ParseError {
+            index: 0,
+            message: "Duration number is too large".to_string(),
+        })
+    }
+
+    fn parse_duration_number_frac(&mut self) -> Result<(u64, Option<f64>), ParseError> {
+        let value = self.parse_duration_number()?;
+
+        if !matches!(self.current, '.' | ',') {
+            return Ok((value, None));
+        }
+
+        let mut decimal = 0_f64;
+        let mut denominator = 1_f64;
+        let mut digits = 0;
 
         while let Some(digit) = self.inc().and_then(|ch| ch.to_digit(10)) {
-            value *= 10;
-            value += digit;
+            decimal *= 10.0;
+            decimal += f64::from(digit);
+            denominator *= 10.0;
+            digits += 1;
+        }
+
+        if digits == 0 {
+            return Err(self.parse_error("Invalid duration fraction".to_string()));
+        }
+
+        Ok((value, Some(decimal / denominator)))
+    }
+
+    fn parse_duration_number(&mut self) -> Result<u64, ParseError> {
+        let Some(first) = self.current.to_digit(10) else {
+            return Err(self.parse_error("Invalid number in duration".to_string()));
+        };
+        let mut value = u64::from(first);
+
+        while let Some(digit) = self.inc().and_then(|ch| ch.to_digit(10)) {
+            value = value
+                .checked_mul(10)
+                .and_then(|v| v.checked_add(u64::from(digit)))
+                .ok_or_else(|| self.parse_error("Duration number is too large".to_string()))?;
         }
 
         Ok(value)
